@@ -1075,7 +1075,11 @@ class _Simu(_IObserver, _params.Updatable, ABC):
         else:
             csr_data = np.bincount(inv, weights=data, minlength=nnz)
 
-        matrix = sparse.csr_matrix((csr_data, indices, indptr), shape=shape)
+        # (the cached pattern is copied: scipy keeps the arrays it is given, and an in-place structural operation
+        # on a returned matrix, e.g. eliminate_zeros(), would otherwise rewrite the cache and the sibling matrices)
+        matrix = sparse.csr_matrix(
+            (csr_data, indices.copy(), indptr.copy()), shape=shape
+        )
         # Canonical by construction (scipy sorted the pattern): lets Solvers skip its canonical fixup.
         matrix.has_canonical_format = True
         return matrix
